@@ -276,7 +276,8 @@ func (d *HeadingDetector) detectBodyFontSize(paragraphs []Paragraph) float64 {
 	maxCount := 0
 	mostCommonBucket := 0
 	for bucket, count := range fontCounts {
-		if count > maxCount {
+		// Equal counts: the smaller size wins, whatever order the map is walked in
+		if count > maxCount || (count == maxCount && bucket < mostCommonBucket) {
 			maxCount = count
 			mostCommonBucket = bucket
 		}
